@@ -27,6 +27,8 @@ def gen_config(rnd, S, opts=None):
                "futures_settlement_price_type": rnd.choice(["close", "settlement"])}
     if opts.get("c06_plans"):
         S["_c06_plans"] = True           # follow-up orders sent from a TRADE handler; a resting auction order plus bar orders on one instrument
+    if opts.get("pf_roundtrip"):
+        S["_pf_roundtrip"] = True        # after the close of every day the portfolio's persisted state is read back into the running portfolio (a restore in place)
     if opts.get("pos_roundtrip"):
         S["_pos_roundtrip"] = True       # after each callback every position's state is written and read back into a fresh object: what can be closed must not change
     if opts.get("force_volume_limit"):
@@ -809,6 +811,12 @@ def run_trading(rnd, S, cfgk, intensity=1.0, script=None, analyser=False, ids=No
                 pos_roundtrip(c)
         return g
     handlers = {"init": init, "open_auction": with_roundtrip(lambda c, b: ops(c, "AUC")), "handle_bar": with_roundtrip(lambda c, b: ops(c, "BAR"))}
+    if S.get("_pf_roundtrip"):
+        def after_trading(context):
+            env = Environment.get_instance()
+            env.portfolio.set_state(env.portfolio.get_state())
+            tr.stats["portfolio_restores_in_place"] += 1
+        handlers["after_trading"] = after_trading
     if script is not None:
         handlers = script(tr, handlers)
     with recorder.instrument(tr.rec):
